@@ -374,15 +374,30 @@ impl State {
         res
     }
 
+    // stop the program where it is; what it left on the run-time stacks goes with
+    // it. Done with the logging primitives and closed by a SetIp, so that reverse
+    // stepping walks back through the halt like through any other step.
+    fn halt(&mut self) {
+        let mut changed = false;
+        while self.pop_loop().is_ok() {
+            changed = true;
+        }
+        while self.pop_return().is_ok() {
+            changed = true;
+        }
+        while self.pop_special().is_some() {
+            changed = true;
+        }
+        if changed || self.ip() != self.code_origin() {
+            self.set_ip(self.code_origin());
+        }
+    }
+
     // what a build may leave behind: remember it on entry
     fn build_mark(&mut self) -> (usize, usize, usize, usize, usize) {
         if self.nested.is_empty() && self.last_error.as_ref().map_or(false, |e| e.runtime) {
-            // a program that failed at run time is not resumed by later sources,
-            // and what it left on the run-time stacks goes with it
-            self.ctx.ip = self.code_origin();
-            self.loops.truncate(self.ctx.ls_len);
-            self.return_stack.truncate(self.ctx.rs_len);
-            self.special.truncate(self.ctx.ss_ptr);
+            // a program that failed at run time is not resumed by later sources
+            self.halt();
         }
         (self.nested.len(), self.input.len(), self.data_stack.len(), self.sources.len(), self.heap.len())
     }
@@ -393,7 +408,7 @@ impl State {
         let (depth, inputs, ds_len, sources, heap) = mark;
         if self.nested.len() <= depth {
             // the source was built, it failed while running: halt it
-            self.ctx.ip = self.code_origin();
+            self.halt();
             return;
         }
         let ctx = self.nested.get(depth + 1).cloned().unwrap_or_else(|| self.ctx.clone());
@@ -585,7 +600,12 @@ impl State {
             .ok_or_else(|| Xerr::unbalanced_context())?;
         if self.ctx.mode == ContextMode::Eval {
             if let Err(e) = self.run() {
-                // built, but failed while running: leave the context, halted
+                // built, but failed while running: leave the context, stopped at
+                // the failing instruction
+                let mut prev = prev;
+                if prev.mode == ContextMode::Eval {
+                    prev.ip = self.ctx.ip;
+                }
                 self.nested.pop();
                 self.ctx = prev;
                 return Err(e);
